@@ -9,7 +9,7 @@ import (
 
 // C13: memory and SQLite are observationally equivalent.
 func C13(c *vlib.Ctx) {
-	c.Rule("lock-step differential execution of one generated operation sequence (60-100 steps, hostile arguments) on memory and SQLite under one virtual clock; after every step the return value (error class, counts, returned messages field by field, conflict classification) and a full API listing of all five states are compared. Only forced-choice dequeues are issued (batch >= number of eligible messages). distinct_nontrivial = distinct (backend, operation, result class, observed transitions) tuples.")
+	c.Rule("lock-step differential execution of one generated operation sequence (60-100 steps, hostile arguments) on memory and SQLite under one virtual clock; after every step the return value (error class, counts, returned messages field by field, conflict classification) and a full API listing of all five states are compared. Only forced-choice dequeues are issued (batch >= number of eligible messages); in every other sequence a third of the dequeues come with a clock step that no listing observes first (the dequeue itself meets expired leases and retention deadlines together). distinct_nontrivial = distinct (backend, operation, result class, observed transitions) tuples.")
 	c.Assume("choice among equally eligible messages is exempt by the statement, hence forced-choice dequeues; distinct dequeue instants are kept >= 10ms apart (documented SQLite sweep granularity, covered by C05)")
 	c.Assume("memory-only documented guards are kept out of play: retained items far below 1000, delivered retention not combined with max_depth")
 	c.Assume("nil vs empty payload/headers are treated as equal (not observable at any API surface); lease ids are related through the dequeue results")
@@ -47,6 +47,12 @@ func C13(c *vlib.Ctx) {
 			r := vlib.Derive(c.Seed, "C13", ci, s)
 			g := storecheck.GenCfg{NIDs: r.Range(6, 24), Routes: stdRoutes, Targets: stdTargets, ForcedOnly: true,
 				OutOfOrder: r.Chance(0.4), Ties: r.Chance(0.4), PaddedLeases: true, Aux: true, Weights: w}
+			if s%2 == 1 {
+				// the harness lists the store after every step, and a listing is itself a
+				// call that prunes: in every other sequence a third of the dequeues are the
+				// first call to meet a new instant
+				g.FusedAdvance = 0.35
+			}
 			storecheck.RunSequence(c, r, storecheck.RunCfg{
 				Backends: []string{"memory", "sqlite"}, Store: sc, Gen: g, Steps: r.Range(60, 100),
 				Label: fmt.Sprintf("C13/cfg%d/seq%d", ci, s), Differential: true,
